@@ -41,8 +41,8 @@ func main() {
 	}
 	if w.selfCheckFailures > 0 {
 		fmt.Fprintf(os.Stderr, "harness self-check: %d un-mangled renderings were classified differently from their intended class\n", w.selfCheckFailures)
-		os.Exit(2)
+		os.Exit(3)
 	}
-	c.Must(c.WriteShards(a.Out, "Corr_C10", cases, a.Shard))
+	c.Must(c.WriteShards(a.Out, "Corr_C10_shards", cases, a.Shard))
 	fmt.Printf("cases=%d\n", len(cases))
 }
